@@ -15,7 +15,7 @@ ID = "C02"
 LEVEL = "exploration"
 BUDGET = {
     "quick": {"runs": 4000, "wall": 240, "chunk": 25},
-    "thorough": {"runs": 40000, "wall": 3000, "chunk": 100},
+    "thorough": {"runs": 150000, "wall": 3400, "chunk": 100},
 }
 RULE = (
     "each run draws a trunk/heads program (1..3 trunk leaves, 1..3 feature tensors of any shape, 1..4 heads "
